@@ -1392,6 +1392,14 @@ def _xml_safe(text):
         text)
 
 
+def _exc_str(exc):
+    """str(exc), also for exceptions whose __str__ raises."""
+    try:
+        return str(exc)
+    except Exception:
+        return '<exception str() failed>'
+
+
 def get_test_class_name(test):
     """Compute the test class name from the test object."""
     return f'{test.__module__}.{test.__class__.__name__}'
@@ -1598,7 +1606,7 @@ class XMLOutputFormattingWrapper:
 
                     try:
                         excType, excInstance, tb = testCase.error
-                        errorMessage = _xml_safe(str(excInstance))
+                        errorMessage = _xml_safe(_exc_str(excInstance))
                         stackTrace = ''.join(traceback.format_tb(tb))
                     finally:  # Avoids a memory leak
                         del tb
@@ -1615,7 +1623,7 @@ class XMLOutputFormattingWrapper:
 
                     try:
                         excType, excInstance, tb = testCase.failure
-                        errorMessage = _xml_safe(str(excInstance))
+                        errorMessage = _xml_safe(_exc_str(excInstance))
                         stackTrace = ''.join(traceback.format_tb(tb))
                     except UnicodeEncodeError:
                         errorMessage = 'Could not extract error str ' \
